@@ -4,7 +4,7 @@
 # Prints one line per seed: CAUGHT / NOT-CAUGHT / DOES-NOT-APPLY, and writes /verif/seeded/selftest_last.txt.
 cd /verif
 seeds="$@"; [ -z "$seeds" ] && seeds=$(ls seeded | grep -v selftest)
-: > seeded/selftest_last.txt
+if [ -n "$*" ]; then touch seeded/selftest_last.txt; for s in $seeds; do sed -i "/^$s \[/d" seeded/selftest_last.txt; done; else : > seeded/selftest_last.txt; fi
 for s in $seeds; do
   [ -d seeded/$s ] || continue
   props=$s; [ -f seeded/$s/expect ] && props=$(cat seeded/$s/expect)
